@@ -1,0 +1,19 @@
+//go:build verif
+
+package replay
+
+// VerifConstants exposes the unexported window parameters to the
+// verification harness (build tag verif only).
+type VerifConst struct {
+	Name string
+	Val  uint64
+}
+
+func VerifConstants() []VerifConst {
+	return []VerifConst{
+		{"blockBitLog", blockBitLog},
+		{"blockBits", blockBits},
+		{"ringBlocks", ringBlocks},
+		{"windowSize", windowSize},
+	}
+}
